@@ -11,7 +11,9 @@ for D in seeded/C*-*; do
     C03-3|C03-4) X="C04";; C04-4) X="C03";; C14-3) X="C01";; C15-4) X="C07";; C04-3) X="C06";; C10-4) X="C05";;
     C04-5|C14-5|C09-6) X="C08";; C05-5) X="C16";; C12-5) X="C20";; C16-5) X="C19";; C17-6) X="C11";; C20-5) X="C05";;
     C03-8|C11-8) X="C18";; C04-7) X="C05";; C07-8) X="C11";; C08-8) X="C15 C09";; C02-8) X="C14 C09";; C10-7) X="C13";;
-    C15-7) X="C04";; C16-8|C08-7|C15-8) X="C19";; C17-8) X="C02";; C01-8) X="C12";; *) X="";;
+    C15-7) X="C04";; C16-8|C08-7|C15-8) X="C19";; C17-8) X="C02";; C01-8) X="C12";;
+    C03-10|C09-10) X="C19";; C05-9) X="C10 C02";; C07-9) X="C08 C16";; C09-9) X="C02";; C16-9) X="C14";; C17-9) X="C14";;
+    C17-10) X="C05 C14";; C20-9) X="C06";; C20-10) X="C05 C12";; *) X="";;
   esac
 
   R=$(tools/try_mutant.sh /verif/$D/patch.diff $P $X 2>&1)
